@@ -493,7 +493,7 @@ func ruleGlobals(p *Program, r *Reporter) {
 									recv = storesThroughReceiver(cal, map[*ssa.Function]bool{})
 								} else {
 									_, isPtr := cal.Signature.Recv().Type().Underlying().(*types.Pointer)
-									recv = isPtr && !isStdNamed(deref(cal.Signature.Recv().Type()), "regexp", "Regexp") && !isStdNamed(deref(cal.Signature.Recv().Type()), "time", "Location")
+									recv = isPtr && !isStdNamed(deref(cal.Signature.Recv().Type()), "regexp", "Regexp") && !isStdNamed(deref(cal.Signature.Recv().Type()), "time", "Location") && !isStdNamed(deref(cal.Signature.Recv().Type()), "strings", "Replacer") // documented as safe for concurrent use
 								}
 							}
 							if recv {
